@@ -720,21 +720,26 @@ def firstUnsupported : List RK → Option String
   | .unsupported w :: _ => some w
   | _ :: rest => firstUnsupported rest
 
+/-- one raw row (number `n`, `table_list` state `tl`) ↦ the RKs it contributes and the new state -/
+def rowRKs (dl : Str) (key : List (Str × List Str)) (lists : List Str) (n : Nat) (tl : TL)
+    (cells : List (Str × Str)) : Except String (List RK × TL) :=
+  match processRow dl key {} cells with
+  | .error e => .error e
+  | .ok r =>
+    match firstUnsupported (classify lists n tl r).1 with
+    | some w => .error w
+    | none => .ok (classify lists n tl r)
+
 def processRows (dl : Str) (key : List (Str × List Str)) (lists : List Str) :
     Nat → TL → List (List (Str × Str)) → Except String (List RK)
   | _, _, [] => .ok []
   | n, tl, cells :: rest =>
-    match processRow dl key {} cells with
+    match rowRKs dl key lists n tl cells with
     | .error e => .error e
-    | .ok r =>
-      match classify lists n tl r with
-      | (ks0, tl') =>
-        match firstUnsupported ks0 with
-        | some w => .error w
-        | none =>
-          match processRows dl key lists (n + 1) tl' rest with
-          | .ok ks => .ok (ks0 ++ ks)
-          | .error e => .error e
+    | .ok (ks0, tl') =>
+      match processRows dl key lists (n + 1) tl' rest with
+      | .ok ks => .ok (ks0 ++ ks)
+      | .error e => .error e
 
 def rkNames : RK → List Str
   | .qs l => l.map (·.name)
